@@ -55,6 +55,7 @@ func Gen(t *rapid.T, o GenOptions) Case {
 			s.Tail = 9
 		}
 		s.Salt = rapid.IntRange(0, 1).Draw(t, "salt")
+		s.Dir = rapid.SampledFrom([]int{0, 0, 0, 1}).Draw(t, "dir")
 		return s
 	})
 	opGen := rapid.Custom(func(t *rapid.T) Op {
@@ -81,7 +82,8 @@ type File struct {
 	Name     string
 	Content  []byte
 	Ref      boson.Address // manifest reference (same on every node: plain uploads are deterministic)
-	Entry    boson.Address // reference of the file's byte tree inside the manifest
+	Entry    boson.Address // reference of the (first) entry's byte tree inside the manifest
+	Parts    []Part        // all entries of the reference (one for a plain file, two for a directory)
 	Data     []string      // data chunk addresses (hex) in file order, with repetitions
 	Distinct []string      // distinct data chunks in first-occurrence order
 	All      map[string]int // every chunk of the file (data, intermediate, manifest): addr -> multiplicity in traversal
@@ -90,6 +92,32 @@ type File struct {
 	Known    bool            // node has a record of the file (uploaded or pyramid fetched)
 	Fetched  map[string]bool // data chunks delivered by fetch
 	Pinned   bool            // last successful pin-ish operation
+}
+
+// Part is one entry of a reference.
+type Part struct {
+	Path    string
+	Content []byte
+	Entry   boson.Address
+}
+
+func partsOf(i int, spec nodelite.FileSpec) []Part {
+	if spec.Dir > 0 {
+		return []Part{{Path: fmt.Sprintf("d%d/a.bin", i), Content: spec.Bytes()}, {Path: fmt.Sprintf("b%d.bin", i), Content: spec.SecondBytes()}}
+	}
+	return []Part{{Path: fmt.Sprintf("file%d.bin", i), Content: spec.Bytes()}}
+}
+
+// upload stores the reference on node n through the real upload handlers.
+func (f *File) upload(n *nodelite.Node, pin bool) (boson.Address, error) {
+	if len(f.Parts) == 1 {
+		return n.UploadFile(f.Parts[0].Path, f.Parts[0].Content, false, pin)
+	}
+	var fs []nodelite.DirFile
+	for _, p := range f.Parts {
+		fs = append(fs, nodelite.DirFile{Path: p.Path, Content: p.Content})
+	}
+	return n.UploadDir(fs, "", false, pin)
 }
 
 // Complete reports whether all data chunks are on the node (as far as the harness delivered them).
@@ -133,8 +161,9 @@ func NewWorldCap(c Case, capacity uint64) (*World, error) {
 		return nil, err
 	}
 	for i, spec := range c.Files {
-		f := &File{Idx: i, Name: fmt.Sprintf("file%d.bin", i), Content: spec.Bytes(), Fetched: map[string]bool{}, All: map[string]int{}}
-		ref, err := w.S.UploadFile(f.Name, f.Content, false, false)
+		f := &File{Idx: i, Parts: partsOf(i, spec), Fetched: map[string]bool{}, All: map[string]int{}}
+		f.Name, f.Content = f.Parts[0].Path, f.Parts[0].Content
+		ref, err := f.upload(w.S, false)
 		if err != nil {
 			return nil, fmt.Errorf("source upload: %w", err)
 		}
@@ -162,11 +191,14 @@ func NewWorldCap(c Case, capacity uint64) (*World, error) {
 		if err != nil {
 			return nil, err
 		}
-		e, err := m.Lookup(context.Background(), f.Name)
-		if err != nil {
-			return nil, fmt.Errorf("manifest lookup: %w", err)
+		for k := range f.Parts {
+			e, err := m.Lookup(context.Background(), f.Parts[k].Path)
+			if err != nil {
+				return nil, fmt.Errorf("manifest lookup: %w", err)
+			}
+			f.Parts[k].Entry = e.Reference()
 		}
-		f.Entry = e.Reference()
+		f.Entry = f.Parts[0].Entry
 		w.Files = append(w.Files, f)
 	}
 	return w, nil
@@ -192,7 +224,7 @@ func (w *World) Apply(op Op) Result {
 	switch op.K {
 	case "upload":
 		n.Rec.Start()
-		ref, err := n.UploadFile(f.Name, f.Content, false, op.Flag)
+		ref, err := f.upload(n, op.Flag)
 		puts := n.Rec.Stop()
 		if err != nil {
 			return Result{Err: err}
@@ -263,7 +295,16 @@ func (w *World) Apply(op Op) Result {
 		if !f.Complete() {
 			return Result{Skipped: true, Why: "file not complete locally"}
 		}
-		code, body := n.DownloadHTTP(f.Ref, f.Name)
+		code, body := 200, []byte(nil)
+		for _, p := range f.Parts {
+			c, b := n.DownloadHTTP(f.Ref, p.Path)
+			if c != 200 || !bytes.Equal(b, p.Content) {
+				code, body = c, b
+				if c == 200 {
+					code = 599 // served, but with different bytes
+				}
+			}
+		}
 		return Result{Code: code, Body: body}
 	case "delete":
 		if !f.Known {
@@ -292,12 +333,14 @@ func (w *World) ReadEntryLocal(f *File) ([]byte, error) { return w.N.ReadLocal(f
 
 // CheckReadable reads f from the local store and compares with the content.
 func (w *World) CheckReadable(f *File) error {
-	b, err := w.ReadEntryLocal(f)
-	if err != nil {
-		return fmt.Errorf("file %d (%s) unreadable from local store: %v", f.Idx, f.Ref, err)
-	}
-	if !bytes.Equal(b, f.Content) {
-		return fmt.Errorf("file %d (%s) reads back different bytes (%d vs %d)", f.Idx, f.Ref, len(b), len(f.Content))
+	for _, p := range f.Parts {
+		b, err := w.N.ReadLocal(p.Entry)
+		if err != nil {
+			return fmt.Errorf("file %d (%s) entry %s unreadable from local store: %v", f.Idx, f.Ref, p.Path, err)
+		}
+		if !bytes.Equal(b, p.Content) {
+			return fmt.Errorf("file %d (%s) entry %s reads back different bytes (%d vs %d)", f.Idx, f.Ref, p.Path, len(b), len(p.Content))
+		}
 	}
 	return nil
 }
